@@ -269,7 +269,7 @@ def run(repo, res, tier):
         for n in walk_no_nested(fn):
             if isinstance(n, (ast.Assign, ast.AnnAssign)) and norm(n.targets[0] if isinstance(n, ast.Assign) else n.target) == "self._polygon":
                 n_poly += 1
-                t = norm(n.value).replace("self._right_vertices", "self.right_vertices").replace("self._left_vertices", "self.left_vertices")
+                t = canon(n.value, ReachingDefs(fn), n, [a.arg for a in fn.args.args], helper_table(lan, lmod, fn, repo))
                 ok = t in ("Polygon(np.concatenate((self.right_vertices, np.flip(self.left_vertices, 0))))", "Polygon(np.concatenate((self.right_vertices, np.flip(self.left_vertices, axis=0))))", "Polygon(np.concatenate((self.right_vertices, self.left_vertices[::-1])))")
                 res.check("G2-INDEX", "Lanelet.%s: polygon = right boundary + reversed left boundary" % mn, ok, lmod, n, "Lanelet.%s: self._polygon = %s" % (mn, norm(n.value)), "the lanelet polygon is not the ring right boundary followed by the reversed left boundary (self-intersecting or wrong area)", qualname="Lanelet." + mn)
     if n_poly < 3:
